@@ -7,12 +7,14 @@ use swc_common::SyntaxContext;
 use swc_common::{FilePathMapping, sync::Lrc};
 use swc_ecma_ast::Module;
 use swc_ecma_ast::{
-    ArrayLit, BindingIdent, Decl, Expr, ExprOrSpread, Ident, KeyValueProp, Lit, ModuleItem,
+    ArrayLit, BindingIdent, ComputedPropName, Decl, Expr, ExprOrSpread, Ident, KeyValueProp, Lit,
+    ModuleItem,
     NewExpr, Null, ObjectLit, Pat, Prop, PropName, PropOrSpread, Regex, Stmt, Str, VarDecl,
     VarDeclKind, VarDeclarator,
 };
 use swc_ecma_codegen::Config;
 use swc_ecma_codegen::{Emitter, text_writer::JsWriter};
+use swc_ecma_visit::{VisitMut, VisitMutWith};
 
 use crate::RuntypeUUID;
 use crate::ast::json::Json;
@@ -29,12 +31,31 @@ use crate::{
     parser_extractor::BuiltDecoder,
 };
 
+/// `{ "__proto__": v }` does not define a property, it sets the prototype of the object: tables keyed by
+/// user strings (declared property names, discriminator values, type names) spell that key `["__proto__"]`.
+struct OwnProtoKeys;
+
+impl VisitMut for OwnProtoKeys {
+    fn visit_mut_prop_name(&mut self, name: &mut PropName) {
+        name.visit_mut_children_with(self);
+        if let PropName::Str(key) = name
+            && key.value.to_string_lossy() == "__proto__"
+        {
+            *name = PropName::Computed(ComputedPropName {
+                span: DUMMY_SP,
+                expr: Box::new(Expr::Lit(Lit::Str(key.clone()))),
+            });
+        }
+    }
+}
+
 fn emit_module_items(body: Vec<ModuleItem>) -> Result<String> {
-    let ast = Module {
+    let mut ast = Module {
         span: DUMMY_SP,
         body,
         shebang: None,
     };
+    ast.visit_mut_with(&mut OwnProtoKeys);
     let cm = Lrc::new(SourceMap::new(FilePathMapping::empty()));
 
     let code = {
